@@ -134,7 +134,10 @@ def oracle_c09(r, an, info, rng):
         if np.any(np.abs(coh[one] - 1) > 1e-9):
             out.append(("coh1:single", "coherence != 1 on a single-segment bin: %r" % coh[one][np.argmax(np.abs(coh[one] - 1))]))
         if info["kind"] in ("identical", "scaled"):
-            m = (r._data["XX"] > 1e-280)
+            # bins whose detrended segments are pure rounding residue (e.g. order 2 on L = 3: XX ~ eps^2 * power) carry no signal:
+            # the two channels' residues are independent rounding noise there, so the statement is restricted to bins above that floor
+            xs = np.asarray(info["x"], float)
+            m = (r._data["XX"] > np.maximum(1e-280, 1e-18 * float(np.mean(xs * xs)) * np.asarray(r.L, float)))
             if np.any(np.abs(coh[m] - 1) > 1e-8):
                 out.append(("coh1:dependent", "coherence != 1 for linearly dependent channels: %r" % coh[m][np.argmax(np.abs(coh[m] - 1))]))
         if not close(r.GyyCx + r.GyyRx, r.Gyy, rtol=1e-12, atol=1e-300):
